@@ -1,8 +1,21 @@
 import Bnum.Lemmas.Basic
 import Bnum.Spec.Float
 import Bnum.Model.Float
+/-
+  Bnum.Lemmas.Float — lemmas for property C14 (float <-> integer casts).  Everything lives in
+  namespace `Bnum.Flt` (plus `FloatFmt.spec` / `FloatFmt.Valid`).
+    1. bit length (`Spec.size`) and the pure arithmetic of round-to-nearest-even (`Spec.rne`):
+       `rne_nearest`, `rne_nearest_unique`, `rne_tie_even`, `rne_exact`, `rne_representable`, `rne_bounds`.
+    2. bit-level helpers for the model (`xor`/`or`/masks/`trailing_zeros`/`testBit`).
+    3. integer → float: `roundMantissa_spec`, `fromSignedParts_eq`, `encodeNat_eq`,
+       `castFloatFromUint_spec`, `floatFromBInt_spec`.
+    4. float → integer: `fields`, `nan_inf_iff`, `normalised_*`, `shiftMantissa_eq`,
+       `castUintFromFloat_eq`, `buintFromFloat_spec`, `bintFromFloat_spec`.
+    5. encoder against decoder: `decode_encode`, `truncOf_natToFloat`.
+-/
 namespace Bnum
 open Spec
+namespace Flt
 
 /-! ### bit length -/
 theorem size_zero : size 0 = 0 := rfl
@@ -161,6 +174,8 @@ theorem rne_bounds {p v : Nat} (hp : 1 ≤ p) (hv : v ≠ 0) :
     · calc m * 2 ^ (size v - p) ≤ 2 ^ p * 2 ^ (size v - p) := Nat.mul_le_mul_right _ h2
         _ = 2 ^ size v := by rw [← Nat.pow_add]; congr 1; omega
 
+end Flt
+
 /-! ### model: format side conditions, bit-level helpers -/
 
 def FloatFmt.spec (F : FloatFmt) : Spec.Fmt := ⟨F.bits, F.p, F.emax⟩
@@ -172,10 +187,10 @@ structure FloatFmt.Valid (F : FloatFmt) : Prop where
   hexp : F.bits - F.p ≤ 31
   hemax : F.emax = 2 ^ (F.bits - F.p - 1)
 
+namespace Flt
+
 theorem valid_f32 : fmtF32.Valid := ⟨by decide, by decide, by decide, by decide⟩
 theorem valid_f64 : fmtF64.Valid := ⟨by decide, by decide, by decide, by decide⟩
-
-namespace Flt
 
 theorem bitsOf_eq_size (v : Nat) : bitsOf v = size v := rfl
 
@@ -879,6 +894,184 @@ theorem buintFromFloat_spec {F : FloatFmt} (hF : F.Valid) (W : Nat) {x : Nat} (h
       rw [wrapU_nonneg (by omega) (by omega)]; omega
     · simp only [hi, Bool.false_eq_true, if_false]
       exact (clampU_pos hm _).symm
+
+
+/-- negating a negative float clears the sign bit and keeps the other fields -/
+theorem neg_fields {F : FloatFmt} (hF : F.Valid) {x : Nat} (hx : x < 2 ^ F.bits)
+    (hs : signOf F.spec x = true) :
+    neg F x < 2 ^ F.bits ∧ signOf F.spec (neg F x) = false ∧
+      expField F.spec (neg F x) = expField F.spec x ∧ fracField F.spec (neg F x) = fracField F.spec x := by
+  obtain ⟨hp, hb, _, _⟩ := hF
+  have hsb : 2 ^ F.bits = 2 * 2 ^ (F.bits - 1) := by rw [pow_split (show 1 ≤ F.bits by omega)]; simp
+  have hge : 2 ^ (F.bits - 1) ≤ x := of_decide_eq_true hs
+  have hneg : neg F x = x - 2 ^ (F.bits - 1) := by
+    unfold neg isSignNegative; simp [hge]
+  have hmod : (x - 2 ^ (F.bits - 1)) % 2 ^ (F.bits - 1) = x % 2 ^ (F.bits - 1) := by
+    rw [Nat.mod_eq_sub_mod hge]
+  rw [hneg]
+  refine ⟨by omega, ?_, ?_, ?_⟩
+  · unfold signOf signBit FloatFmt.spec; simp only; simp; omega
+  · unfold expField signBit FloatFmt.spec; simp only; rw [hmod]
+  · unfold fracField FloatFmt.spec; simp only
+    obtain ⟨k, hk⟩ : 2 ^ (F.p - 1) ∣ 2 ^ (F.bits - 1) := Nat.pow_dvd_pow 2 (by omega)
+    obtain ⟨d, rfl⟩ := Nat.exists_eq_add_of_le hge
+    rw [Nat.add_sub_cancel_left, hk, Nat.mul_add_mod]
+
+theorem neg_decoded {F : FloatFmt} (hF : F.Valid) {x : Nat} (hx : x < 2 ^ F.bits)
+    (hs : signOf F.spec x = true) :
+    Spec.isNaN F.spec (neg F x) = Spec.isNaN F.spec x ∧ Spec.isInf F.spec (neg F x) = Spec.isInf F.spec x ∧
+      truncOf F.spec (neg F x) = truncOf F.spec x := by
+  obtain ⟨_, _, hE, hf⟩ := neg_fields hF hx hs
+  unfold Spec.isNaN Spec.isInf truncOf decodeFinite
+  rw [hE, hf]; exact ⟨rfl, rfl, rfl⟩
+
+/-- signed clamps, `m = 2h` -/
+theorem clampS_pos {m h : Nat} (hm : m = 2 * h) (hh : 0 < h) (t : Nat) :
+    wrapU m (clamp true m (t : Int)) = if min t (m - 1) ≥ h then h - 1 else min t (m - 1) := by
+  have hd : m / 2 = h := by omega
+  unfold clamp minV maxV; simp only [if_true, hd]
+  have h' : ¬ (t : Int) < -(h : Int) := by omega
+  simp only [h', if_false]
+  by_cases hc : (t : Int) > (h : Int) - 1
+  · simp only [hc, if_true]; rw [wrapU_nonneg (by omega) (by omega)]
+    rw [if_pos (by omega)]; omega
+  · simp only [hc, if_false]; rw [wrapU_nonneg (by omega) (by omega)]
+    rw [if_neg (by omega)]; omega
+
+theorem clampS_neg {m h : Nat} (hm : m = 2 * h) (hh : 0 < h) (t : Nat) :
+    wrapU m (clamp true m (-(t : Int))) = if min t (m - 1) ≥ h then h else (m - min t (m - 1)) % m := by
+  have hd : m / 2 = h := by omega
+  unfold clamp minV maxV; simp only [if_true, hd]
+  by_cases hc : -(t : Int) < -(h : Int)
+  · simp only [hc, if_true]; rw [wrapU_neg (by omega) (by omega), if_pos (by omega)]; omega
+  · have h' : ¬ (-(t : Int) > (h : Int) - 1) := by omega
+    simp only [hc, h', if_false]
+    by_cases h0 : t = 0
+    · subst h0; rw [wrapU_nonneg (by omega) (by omega), if_neg (by omega)]; simp
+    · rw [wrapU_neg (by omega) (by omega)]
+      by_cases hth : t = h
+      · subst hth; rw [if_pos (by omega)]; omega
+      · rw [if_neg (by omega), Nat.mod_eq_of_lt (by omega)]; omega
+
+/-- `CastFrom<f32/f64> for BInt<N>`: NaN ↦ 0, else the truncated value clamped to `[MIN, MAX]` -/
+theorem bintFromFloat_spec {F : FloatFmt} (hF : F.Valid) {W : Nat} (hW : 1 ≤ W) {x : Nat}
+    (hx : x < 2 ^ F.bits) :
+    bintFromFloat F W x = Spec.floatToInt F.spec true (2 ^ W) x := by
+  have hm : 2 ^ W = 2 * 2 ^ (W - 1) := by rw [pow_split hW]; simp
+  have hh : 0 < 2 ^ (W - 1) := Nat.pow_pos (by decide)
+  have hd : 2 ^ W / 2 = 2 ^ (W - 1) := by omega
+  unfold bintFromFloat Spec.floatToInt buintFromFloat patIsNegative
+  have hsign : isSignNegative F x = signOf F.spec x := rfl
+  rw [hsign]
+  by_cases hs : signOf F.spec x = true
+  · obtain ⟨hx', hs', _, _⟩ := neg_fields hF hx hs
+    obtain ⟨hn', hi', ht'⟩ := neg_decoded hF hx hs
+    simp only [hs, if_true]
+    rw [castUintFromFloat_eq hF W hx', hn', hi', ht', hs']
+    simp only [Bool.false_eq_true, if_false]
+    by_cases hn : Spec.isNaN F.spec x = true
+    · simp only [hn, if_true]
+      rw [if_neg (by omega)]; simp
+    simp only [hn, Bool.false_eq_true, if_false]
+    by_cases hi : Spec.isInf F.spec x = true
+    · simp only [hi, if_true, minV, hd]
+      rw [if_pos (by omega), wrapU_neg (by omega) (by omega)]; omega
+    · simp only [hi, Bool.false_eq_true, if_false]
+      rw [clampS_neg hm hh]; rfl
+  · simp only [hs, Bool.false_eq_true, if_false]
+    rw [castUintFromFloat_eq hF W hx]
+    simp only [hs, Bool.false_eq_true, if_false]
+    by_cases hn : Spec.isNaN F.spec x = true
+    · simp only [hn, if_true]
+      rw [decide_eq_false (by omega)]; simp
+    simp only [hn, Bool.false_eq_true, if_false]
+    by_cases hi : Spec.isInf F.spec x = true
+    · simp only [hi, if_true, maxV, hd]
+      rw [decide_eq_true (by omega)]; simp only [if_true]
+      rw [wrapU_nonneg (by omega) (by omega)]; omega
+    · simp only [hi, Bool.false_eq_true, if_false]
+      rw [clampS_pos hm hh]
+      simp only [decide_eq_true_eq, ge_iff_le]; rfl
+
+
+/-! ### the encoder against the decoder (sanity of the specification) -/
+
+/-- decoding the encoding of a finite representable number gives back its significand and exponent -/
+theorem decode_encode {F : FloatFmt} (hF : F.Valid) {r e m : Nat}
+    (h1 : 2 ^ (F.p - 1) ≤ m) (h2 : m < 2 ^ F.p)
+    (hr : r * 2 ^ (F.p - 1) = m * 2 ^ e) (he : e < F.emax) :
+    let x := encodeNat F.spec r
+    x < 2 ^ F.bits ∧ signOf F.spec x = false ∧ Spec.isNaN F.spec x = false ∧ Spec.isInf F.spec x = false ∧
+      decodeFinite F.spec x = (m, (e : Int) - ((F.p : Int) - 1)) := by
+  intro x
+  obtain ⟨hem2, hem4, hem30⟩ := emax_facts hF
+  have hp := hF.hp
+  have hb := hF.hbits
+  have hP : 0 < 2 ^ (F.p - 1) := Nat.pow_pos (by decide)
+  have hx : x = (e + F.emax - 1) * 2 ^ (F.p - 1) + (m - 2 ^ (F.p - 1)) :=
+    encodeNat_eq (F := F.spec) (by show 1 ≤ F.p; omega) h1 h2 hr he
+  have hfr : m - 2 ^ (F.p - 1) < 2 ^ (F.p - 1) := by
+    rw [pow_split (show F.p - 1 ≤ F.p by omega), show F.p - (F.p - 1) = 1 by omega] at h2; omega
+  have hsb : 2 ^ (F.bits - 1) = (2 * F.emax) * 2 ^ (F.p - 1) := by
+    rw [hem2, ← Nat.pow_add]; congr 1; omega
+  have hxlt : x < 2 ^ (F.bits - 1) := by
+    have h3 : (e + F.emax - 1) + 1 ≤ 2 * F.emax := by omega
+    have h4 := Nat.mul_le_mul_right (2 ^ (F.p - 1)) h3
+    rw [Nat.add_mul] at h4; rw [hx, hsb]; omega
+  have hE : expField F.spec x = e + F.emax - 1 := by
+    unfold expField signBit
+    show x % 2 ^ (F.bits - 1) / 2 ^ (F.p - 1) = _
+    rw [Nat.mod_eq_of_lt hxlt, hx, Nat.add_comm, Nat.mul_comm, Nat.add_mul_div_left _ _ hP,
+      Nat.div_eq_of_lt hfr, Nat.zero_add]
+  have hf : fracField F.spec x = m - 2 ^ (F.p - 1) := by
+    unfold fracField
+    show x % 2 ^ (F.p - 1) = _
+    rw [hx, Nat.add_comm, Nat.mul_comm, Nat.add_mul_mod_self_left, Nat.mod_eq_of_lt hfr]
+  have hbits : 2 ^ (F.bits - 1) < 2 ^ F.bits := Nat.pow_lt_pow_right (by decide) (by omega)
+  have hne : (e + F.emax - 1 == 2 * F.emax - 1) = false := by simp; omega
+  refine ⟨by omega, ?_, ?_, ?_, ?_⟩
+  · unfold signOf signBit; show decide (2 ^ (F.bits - 1) ≤ x) = false; simp; omega
+  · unfold Spec.isNaN; rw [hE]; show ((e + F.emax - 1 == 2 * F.emax - 1) && _) = false; rw [hne]; rfl
+  · unfold Spec.isInf; rw [hE]; show ((e + F.emax - 1 == 2 * F.emax - 1) && _) = false; rw [hne]; rfl
+  · unfold decodeFinite; rw [hE, hf]
+    have h0 : e + F.emax - 1 ≠ 0 := by omega
+    simp only [h0, if_false]
+    show (m - 2 ^ (F.p - 1) + 2 ^ (F.p - 1), ((e + F.emax - 1 : Nat) : Int) - ((F.emax : Int) - 1) - ((F.p : Int) - 1)) = _
+    congr 1
+    · omega
+    · omega
+
+/-- round trip: the float produced for `v` has exactly the value `rne p v` (when finite) -/
+theorem truncOf_natToFloat {F : FloatFmt} (hF : F.Valid) {v : Nat} (hfin : rne F.p v < 2 ^ F.emax) :
+    truncOf F.spec (natToFloat F.spec v) = rne F.p v := by
+  have hp := hF.hp
+  by_cases hv : v = 0
+  · subst hv
+    have : natToFloat F.spec 0 = 0 := by simp [natToFloat, rne, size, encodeNat]
+    rw [this, truncOf_subnormal hF (Nat.pow_pos (by decide))]
+    · simp [rne, size]
+    · unfold expField; simp
+  · obtain ⟨e, m, _, hm1, hm2, hval, hcase⟩ := roundMantissa_spec hF 0 true hv
+    have he : e < F.emax := by
+      by_contra hge
+      have hpos : 0 < 2 ^ (F.p - 1) := Nat.pow_pos (by decide)
+      have : 2 ^ F.emax * 2 ^ (F.p - 1) ≤ rne F.p v * 2 ^ (F.p - 1) := by
+        rw [hval, Nat.mul_comm]
+        exact Nat.mul_le_mul hm1 (Nat.pow_le_pow_right (by decide) (by omega))
+      have := Nat.le_of_mul_le_mul_right this hpos
+      omega
+    obtain ⟨_, _, _, _, hdec⟩ := decode_encode hF hm1 hm2 hval he
+    unfold truncOf natToFloat
+    show truncMag (decodeFinite F.spec (encodeNat F.spec (rne F.p v))).1 (decodeFinite F.spec (encodeNat F.spec (rne F.p v))).2 = _
+    rw [hdec]; simp only
+    by_cases hle : F.p - 1 ≤ e
+    · rw [truncMag_of_ge (by omega) hle]
+      rw [pow_split hle, ← Nat.mul_assoc, Nat.mul_right_comm] at hval
+      exact (Nat.eq_of_mul_eq_mul_right (Nat.pow_pos (by decide)) hval).symm
+    · rw [truncMag_of_le (by omega) (by omega)]
+      rw [pow_split (show e ≤ F.p - 1 by omega), Nat.mul_comm (2 ^ e), ← Nat.mul_assoc] at hval
+      have := Nat.eq_of_mul_eq_mul_right (Nat.pow_pos (by decide)) hval
+      rw [← this, Nat.mul_div_cancel _ (Nat.pow_pos (by decide))]
 
 
 end Flt
